@@ -2,7 +2,7 @@
 import os
 import re
 
-from rules import hirq, mirq, apimisuse, origins
+from rules import hirq, mirq, apimisuse, origins, lexq
 from rules.core import walk, norm_path, AnchorMissing, REPO
 
 LEVEL = "other"
@@ -431,6 +431,48 @@ def r9_operator_location_after_pop(run, F):
     run.floor("R9-OPERATOR-LOCATION-AFTER-POP", 5, "operator-location reads in the first-generation parser (6 counted)")
 
 
+def r10_escape_span(run, F):
+    """Inside a quoted literal the first-generation lexer advances the end of the span by one for the character that follows a
+    backslash *before* it looks whether there is one.  When the line ends right after the backslash (E161) that position does not
+    exist: the arm for "nothing follows" takes the advance back, so that the span of the error is the backslash itself.  Left in
+    place, the span ends one past the end of the line -- one past the end of the *file* for a last line without a line feed,
+    and the renderer then shows neither source line nor label."""
+    A = lexq.LexTables(F, "alpha")
+    b = A.body
+    n = 0
+    for q, arm in sorted(A.quote_arms.items()):
+        for node in walk(arm["body"]):
+            if node.get("k") != "If":
+                continue
+            cond = hirq.unwrap_trivial(node["cond"])
+            if not (cond.get("k") == "Binary" and cond.get("op") == "Eq" and lexq.char_lits(cond) == [92]):
+                continue
+            then = hirq.unwrap_trivial(node["then"])
+            stmts = then.get("stmts", []) + ([then["e"]] if then.get("e") is not None else [])
+            pre = []
+            esc = None
+            for s_ in stmts:
+                x = s_.get("e", s_) if s_.get("k") in ("Semi", "Expr") else s_
+                if x.get("k") == "AssignOp" and x.get("op") in ("Add", "AddAssign") and hirq.unwrap_trivial(x["lhs"]).get("k") == "Path" and esc is None:
+                    pre.append(hirq.unwrap_trivial(x["lhs"]).get("lid"))
+                ms = [m for m in ([x] if x.get("k") == "Match" else []) if lexq.is_next(m["scrut"])]
+                if ms and esc is None:
+                    esc = ms[0]
+            if esc is None:
+                continue
+            n += 1
+            none_arms = [a for a in esc["arms"] if str(hirq.strip_ref(a["pat"]).get("res", "")).endswith("None")]
+            undone = set()
+            for a in none_arms:
+                for x in walk(a["body"]):
+                    if x.get("k") == "AssignOp" and x.get("op") in ("Sub", "SubAssign"):
+                        undone.add(hirq.unwrap_trivial(x["lhs"]).get("lid"))
+            ok = len(none_arms) == 1 and all(l in undone for l in pre)
+            run.ob("R10-ESCAPE-SPAN", "alpha %s|trailing backslash" % ("string" if q == 34 else "char"), ok, F.where(b, none_arms[0] if none_arms else esc),
+                   "the span end advanced for the escape character before `iter.next()` (%d local(s)) is taken back in the arm for a line that ends after the backslash (%d undone)" % (len(pre), len(undone)))
+    run.ob("R10-ESCAPE-SPAN", "scan", n >= 1, F.where(b), "%d escape decoder(s) of the first-generation lexer examined" % n)
+
+
 def check(run):
     F = run.facts("B")
     r1_codes(run, F)
@@ -442,3 +484,4 @@ def check(run):
     r7_span_start(run, F)
     r8_derived_spans(run, F)
     r9_operator_location_after_pop(run, F)
+    r10_escape_span(run, F)
